@@ -60,8 +60,8 @@ impl Family for C18Family {
 
     fn total(&self, tier: Tier) -> u64 {
         match tier {
-            Tier::Quick => 3_000,
-            Tier::Thorough => 250_000,
+            Tier::Quick => 40_000,
+            Tier::Thorough => 4_000_000,
         }
     }
 
